@@ -133,7 +133,11 @@ def execute(case, NP, NREQ, rnd, threaded=False):
         conv.step(('cclose',))
     t = conv.transcript()
     ugot = t['upstreams'][0]['got'] if t['upstreams'] else b''
-    return {'calls': log, 'nconnect': len(t['connects']), 'fwd': split_requests(ugot), 'out': classify_client(t['clients'][0]['got']),
+    dest = 0
+    if t['connects']:
+        h = t['connects'][0]['host']
+        dest = int(h.rsplit('.', 1)[1]) if h.startswith('10.9.0.') else 0 if h == 'h.example' else -1
+    return {'calls': log, 'nconnect': len(t['connects']), 'dest': dest, 'fwd': split_requests(ugot), 'out': classify_client(t['clients'][0]['got']),
             'ceof': ceof_before_own_close, 'alive': t['alive'], 'loop_error': t['loop_error']}
 
 
@@ -155,7 +159,7 @@ def run(chk):
             if not obs['alive']:
                 chk.notes.append('executor loop died for program %s: %s (reported under C05)' % (case['prog'], obs['loop_error']))
             traces.append({'id': n + 1, 'prog': case['prog'], 'auth': case['auth'], 'ending': case['ending'], 'calls': obs['calls'],
-                           'nconnect': obs['nconnect'], 'fwd': obs['fwd'], 'out': obs['out'], 'ceof': obs['ceof']})
+                           'nconnect': obs['nconnect'], 'dest': obs['dest'], 'fwd': obs['fwd'], 'out': obs['out'], 'ceof': obs['ceof']})
         results, rej = tlc.run_sharded('TraceChain', 'TraceChain.cfg', traces, shards=16, timeout=1200, constants=c)
         m = tlc.Merged(results)
         chk.add_tlc('TraceChain NP=%d (%d executions)' % (NP, len(traces)), m)
